@@ -17,6 +17,7 @@ from ..errors import (
     JoseError,
     DecodeError,
     InvalidCEKLengthError,
+    MissingEncryptionError,
     InvalidEncryptedKeyError,
     InvalidExchangeKeyError,
     ConflictAlgorithmError,
@@ -85,6 +86,8 @@ def perform_decrypt(obj: EncryptionData, registry: JWERegistry) -> None:
 
 
 def _perform_decrypt(obj: EncryptionData, registry: JWERegistry) -> None:
+    if "enc" not in obj.protected:
+        raise MissingEncryptionError()
     enc = registry.get_enc(obj.protected["enc"])
 
     iv = obj.bytes_segments["iv"]
